@@ -9,6 +9,7 @@ package main
 import (
 	"fmt"
 	"go/token"
+	"os"
 	"sort"
 	"strconv"
 	"strings"
@@ -181,11 +182,11 @@ func checkC03(w *World, r *Report) {
 	tree := settlementTree(w)
 	checkMonoSearch(w, r, tm, tree)
 	checkCapMin(w, r, tm, tree)
-	checkSupplyGuard(w, r, tm, tree)
+	checkSupplyGuard(w, r, tm, tree, false)
 	// the clearing price that was computed is the one the auction record keeps (it is what users and queries see)
 	r.Sub(checkC16, "PUB-PRICE")
 	// the allowances that cap the demand are those of the auction being settled
-	r.Sub(checkC19, "PREFIX-RANGE")
+	r.SubWhere(checkC19, keepAny(":AllowedBidder:", ":Bid:"), "PREFIX-RANGE")
 }
 
 func checkMonoSearch(w *World, r *Report, tm *Terms, tree map[*ssa.Function]bool) {
@@ -281,6 +282,9 @@ func checkSearchDir(w *World, r *Report, tm *Terms, fn *ssa.Function, search ssa
 	}
 	// how is the price list sorted? find the producing function's sort call comparator
 	order := ""
+	if os.Getenv("VERIF_DEBUG") == "searchdir" {
+		fmt.Fprintln(os.Stderr, "SEARCH-DIR priceList", priceList.String())
+	}
 	priceList.Walk(func(t *Term) bool {
 		if t.Op == "call" {
 			if c, ok := t.V.(*ssa.Call); ok {
@@ -290,6 +294,19 @@ func checkSearchDir(w *World, r *Report, tm *Terms, fn *ssa.Function, search ssa
 						if o := sortOrderOfDecSlice(w, tm, g); o != "" {
 							order = o
 						}
+					}
+				}
+			}
+		}
+		// the list as the producing function built it (its body inlined into the term): the function that made it
+		if order == "" {
+			if in, isInstr := t.V.(ssa.Instruction); isInstr && (t.Op == "makeslice" || t.Op == "builtin") && in.Parent() != nil {
+				for _, g := range sortedFns(w.reachableFrom(in.Parent())) {
+					if g == fn || g == pred {
+						continue
+					}
+					if o := sortOrderOfDecSlice(w, tm, g); o != "" {
+						order = o
 					}
 				}
 			}
@@ -497,7 +514,10 @@ func checkCapMin(w *World, r *Report, tm *Terms, tree map[*ssa.Function]bool) {
 	// the decrement and the accumulation happen under the same condition as each other (one block or same dominating branch) — checked by SUPPLY-GUARD's reachability
 }
 
-func checkSupplyGuard(w *World, r *Report, tm *Terms, tree map[*ssa.Function]bool) {
+// upperBoundOK: for "nobody gets more than the supply" (C05) a guard on a quantity that is certainly not smaller than
+// the accumulated one is enough (the accumulated is MinInt(guarded, ·)); for the clearing price (C03) the guard must be
+// on the accumulated quantity itself, or qualifying prices are rejected.
+func checkSupplyGuard(w *World, r *Report, tm *Terms, tree map[*ssa.Function]bool, upperBoundOK bool) {
 	sites := accumulationSites(w, tree)
 	byFn := map[*ssa.Function][]accSite{}
 	for _, s := range sites {
@@ -591,6 +611,15 @@ func checkSupplyGuard(w *World, r *Report, tm *Terms, tree map[*ssa.Function]boo
 			x.Run(fn, 0)
 			hit = hr.hit
 			qOK := guardQ[s.added]
+			if !qOK && upperBoundOK {
+				if mc, ok := s.added.(*ssa.Call); ok && callKey(&mc.Call) == mathPath+".MinInt" {
+					for _, a := range mc.Call.Args {
+						if guardQ[a] {
+							qOK = true
+						}
+					}
+				}
+			}
 			why := ""
 			switch {
 			case hit:
